@@ -1,52 +1,181 @@
 //! C01 — K-fold: `fold`, `iter_fold`, `cross_validate(_single)` on tagged datasets.
 //!
-//! Record cell (id, j) = id*p + j, target cell (id, c) = 100000 + id*t + c (exact in f64), so any
-//! mis-pairing or lost row is visible.  The same tagging is rebuilt by the Lean driver from
+//! Record cell (id, j) = id*p + j, target cell (id, c) = 100000 + id*t + c (exact in f64 and f32), so
+//! any mis-pairing or lost row is visible.  The same tagging is rebuilt by the Lean driver from
 //! (n, p, t), so request lines stay short.
+//!
+//! Variants driven (round 2): memory layouts of records / targets (`C` row-major, `F` column-major,
+//! `S` strided slice of a larger array, `R` reversed rows = negative stride), element types
+//! (records f64/f32, targets f64/f32/usize), storage (owned `Array`, read-only / mutable views,
+//! `ArcArray`), `CountedTargets` (label recount of the folded parts), accumulator `FACC` f64/f32,
+//! `k > 255`, no candidate model at all, several `linfa::Error` variants out of the evaluation closure.
+//!
+//! What is compared with the model is what the statement promises: the training part of a pair as a
+//! multiset of (record, target) rows (printed sorted), the validation part in order; requests
+//! outside the property's guard `2 <= k <= n` are run but answered `unguarded` on both sides;
+//! when several scripted cells of a cross-validation fail, any one of them may surface.
 use crate::util::*;
-use linfa::dataset::{Dataset, DatasetBase, DatasetView};
+use linfa::dataset::{AsTargets, CountedTargets, DatasetBase, DatasetView, Labels, TargetDim};
 use linfa::traits::{Fit, PredictInplace};
-use ndarray::{Array1, Array2, ArrayView1, ArrayView2, Axis, Ix1, Ix2};
+use ndarray::{s, Array, Array1, Array2, ArrayView, ArrayView1, ArrayView2, Axis, Dimension, Ix1, Ix2, ShapeBuilder};
 use std::cell::RefCell;
+use std::panic::{catch_unwind, AssertUnwindSafe};
 
-fn recs(n: usize, p: usize) -> Array2<f64> {
-    Array2::from_shape_fn((n, p), |(i, j)| (i * p + j) as f64)
+const TBASE: usize = 100000;
+const JUNK: usize = 7_000_000;
+
+// ---------------------------------------------------------------- element types and layouts
+
+trait El: Copy + Clone + PartialEq + std::fmt::Debug + 'static {
+    const NAME: &'static str;
+    fn of(x: usize) -> Self;
+    fn id(self) -> u64;
 }
-fn tgts2(n: usize, t: usize) -> Array2<f64> {
-    Array2::from_shape_fn((n, t), |(i, c)| (100000 + i * t + c) as f64)
+impl El for f64 {
+    const NAME: &'static str = "f64";
+    fn of(x: usize) -> Self {
+        x as f64
+    }
+    fn id(self) -> u64 {
+        self as u64
+    }
 }
-fn tgts1(n: usize) -> Array1<f64> {
-    Array1::from_shape_fn(n, |i| (100000 + i) as f64)
+impl El for f32 {
+    const NAME: &'static str = "f32";
+    fn of(x: usize) -> Self {
+        x as f32
+    }
+    fn id(self) -> u64 {
+        self as u64
+    }
 }
-fn rows2(a: &ArrayView2<f64>) -> Vec<Vec<u64>> {
-    a.rows().into_iter().map(|r| r.iter().map(|x| *x as u64).collect()).collect()
+impl El for usize {
+    const NAME: &'static str = "usize";
+    fn of(x: usize) -> Self {
+        x
+    }
+    fn id(self) -> u64 {
+        self as u64
+    }
 }
-fn rows1(a: &ArrayView1<f64>) -> Vec<Vec<u64>> {
-    a.iter().map(|x| vec![*x as u64]).collect()
+
+/// an owned `n x cols` array whose LOGICAL cell (i, j) is `f(i, j)`, stored in layout `lay`
+fn build2_with<A: El>(n: usize, cols: usize, lay: char, f: impl Fn(usize, usize) -> A) -> Array2<A> {
+    match lay {
+        'C' => Array2::from_shape_fn((n, cols), |(i, j)| f(i, j)),
+        'F' => Array2::from_shape_fn((n, cols).f(), |(i, j)| f(i, j)),
+        'S' => {
+            // every second row and every second column of a larger row-major array
+            let big = Array2::from_shape_fn((2 * n, 2 * cols + 1), |(i, j)| if i % 2 == 0 && j % 2 == 1 { f(i / 2, j / 2) } else { A::of(JUNK + i + j) });
+            big.slice_move(s![..;2, 1..;2])
+        }
+        'R' => {
+            let mut a = Array2::from_shape_fn((n, cols), |(i, j)| f(n - 1 - i, j));
+            a.invert_axis(Axis(0));
+            a
+        }
+        _ => unreachable!(),
+    }
+}
+fn build1_with<A: El>(n: usize, lay: char, f: impl Fn(usize) -> A) -> Array1<A> {
+    match lay {
+        'C' | 'F' => Array1::from_shape_fn(n, |i| f(i)),
+        'S' => {
+            let big = Array1::from_shape_fn(2 * n + 1, |i| if i % 2 == 1 { f(i / 2) } else { A::of(JUNK + i) });
+            big.slice_move(s![1..;2])
+        }
+        'R' => {
+            let mut a = Array1::from_shape_fn(n, |i| f(n - 1 - i));
+            a.invert_axis(Axis(0));
+            a
+        }
+        _ => unreachable!(),
+    }
+}
+fn recs_l<A: El>(n: usize, p: usize, lay: char) -> Array2<A> {
+    build2_with(n, p, lay, |i, j| A::of(i * p + j))
+}
+
+/// target dimension (Ix1 / Ix2) specific construction and read-out
+trait TD: TargetDim + Dimension {
+    const D: usize;
+    fn build_with<B: El>(n: usize, t: usize, lay: char, f: impl Fn(usize, usize) -> B) -> Array<B, Self>;
+    fn rows<B: El>(a: &ArrayView<B, Self>) -> Vec<Vec<u64>>;
+}
+impl TD for Ix1 {
+    const D: usize = 1;
+    fn build_with<B: El>(n: usize, _t: usize, lay: char, f: impl Fn(usize, usize) -> B) -> Array1<B> {
+        build1_with(n, lay, |i| f(i, 0))
+    }
+    fn rows<B: El>(a: &ArrayView1<B>) -> Vec<Vec<u64>> {
+        a.iter().map(|x| vec![x.id()]).collect()
+    }
+}
+impl TD for Ix2 {
+    const D: usize = 2;
+    fn build_with<B: El>(n: usize, t: usize, lay: char, f: impl Fn(usize, usize) -> B) -> Array2<B> {
+        build2_with(n, t, lay, f)
+    }
+    fn rows<B: El>(a: &ArrayView2<B>) -> Vec<Vec<u64>> {
+        rows2(a)
+    }
+}
+fn tgts_l<B: El, I: TD>(n: usize, t: usize, lay: char) -> Array<B, I> {
+    I::build_with(n, t, lay, |i, c| B::of(TBASE + i * t + c))
+}
+
+fn rows2<A: El>(a: &ArrayView2<A>) -> Vec<Vec<u64>> {
+    a.rows().into_iter().map(|r| r.iter().map(|x| x.id()).collect()).collect()
 }
 fn show_rows(r: &[Vec<u64>]) -> String {
     list2(r.iter().map(|x| x.iter()), |x| x.to_string())
 }
+fn flat(v: &[Vec<u64>]) -> Vec<u64> {
+    v.iter().flatten().copied().collect()
+}
+/// the statement promises the training part as a multiset of (record, target) rows: canonical order
+fn sort_paired(r: &[Vec<u64>], t: &[Vec<u64>]) -> (Vec<Vec<u64>>, Vec<Vec<u64>>) {
+    if r.len() != t.len() {
+        return (r.to_vec(), t.to_vec());
+    }
+    let mut z: Vec<(Vec<u64>, Vec<u64>)> = r.iter().cloned().zip(t.iter().cloned()).collect();
+    z.sort();
+    z.into_iter().unzip()
+}
+fn guard(n: usize, k: usize) -> bool {
+    k >= 2 && k <= n
+}
+fn nk_class(what: &str, n: usize, k: usize) -> String {
+    format!("{}:n_mod_k={}", what, if k > 0 && n % k == 0 { "0" } else { "nonzero" })
+}
 
-/// naive oracle for one (train, valid) pair: disjoint, union = everything, block position, pairing
-fn oracle_pair(ctx: &mut Ctx, what: &str, n: usize, k: usize, p: usize, t: usize, i: usize, tr_r: &[Vec<u64>], tr_t: &[Vec<u64>], va_r: &[Vec<u64>], va_t: &[Vec<u64>], ordered_train: bool) {
+type Rows = Vec<Vec<u64>>;
+type Pair = (Rows, Rows, Rows, Rows);
+
+/// naive oracle for one (train, valid) pair: disjoint, union = everything, block position, pairing.
+/// `exp_t(id)` is the target row that belongs to record `id`.
+fn oracle_pair(ctx: &mut Ctx, what: &str, n: usize, k: usize, p: usize, i: usize, pair: (&[Vec<u64>], &[Vec<u64>], &[Vec<u64>], &[Vec<u64>]), exp_t: &dyn Fn(usize) -> Vec<u64>) {
+    let (tr_r, tr_t, va_r, va_t) = pair;
     let fs = n / k;
-    let class = format!("{}:n_mod_k={}", what, if n % k == 0 { "0" } else { "nonzero" });
+    let class = nk_class(what, n, k);
     let id_of_r = |row: &Vec<u64>| -> Option<usize> {
+        if row.len() != p || p == 0 {
+            return None;
+        }
         let id = (row[0] as usize) / p;
-        if row.len() == p && row.iter().enumerate().all(|(j, v)| *v as usize == id * p + j) { Some(id) } else { None }
-    };
-    let id_of_t = |row: &Vec<u64>| -> Option<usize> {
-        let id = (row[0] as usize - 100000) / t;
-        if row.len() == t && row.iter().enumerate().all(|(c, v)| *v as usize == 100000 + id * t + c) { Some(id) } else { None }
+        if id < n && row.iter().enumerate().all(|(j, v)| *v as usize == id * p + j) {
+            Some(id)
+        } else {
+            None
+        }
     };
     let mut seen = vec![0usize; n];
     let mut check_side = |ctx: &mut Ctx, rr: &[Vec<u64>], tt: &[Vec<u64>], side: &str| -> Vec<usize> {
         let mut ids = vec![];
         ctx.require(rr.len() == tt.len(), "pairing", &class, || format!("{} fold {}: {} records vs {} targets", side, i, rr.len(), tt.len()));
         for (a, b) in rr.iter().zip(tt.iter()) {
-            match (id_of_r(a), id_of_t(b)) {
-                (Some(x), Some(y)) if x == y && x < n => {
+            match id_of_r(a) {
+                Some(x) if exp_t(x) == *b => {
                     seen[x] += 1;
                     ids.push(x);
                 }
@@ -55,103 +184,336 @@ fn oracle_pair(ctx: &mut Ctx, what: &str, n: usize, k: usize, p: usize, t: usize
         }
         ids
     };
-    let tr_ids = check_side(ctx, tr_r, tr_t, "train");
+    let _tr_ids = check_side(ctx, tr_r, tr_t, "train");
     let va_ids = check_side(ctx, va_r, va_t, "valid");
     ctx.require(seen.iter().all(|c| *c == 1), "partition", &class, || format!("fold {}: multiplicities {:?}", i, seen));
     let want_va: Vec<usize> = (i * fs..(i + 1) * fs).collect();
     ctx.require(va_ids == want_va, "valid_block", &class, || format!("fold {}: validation ids {:?}, want {:?}", i, va_ids, want_va));
-    if ordered_train {
-        let want_tr: Vec<usize> = (0..n).filter(|x| *x < i * fs || *x >= (i + 1) * fs).collect();
-        ctx.require(tr_ids == want_tr, "train_complement_in_order", &class, || format!("fold {}: training ids {:?}", i, tr_ids));
+    // the tail n - k*fs is training-only: implied by partition + valid_block (every id once, block i validated)
+}
+
+#[derive(Clone, Copy)]
+struct Cfg {
+    n: usize,
+    k: usize,
+    p: usize,
+    t: usize,
+    dim: usize,
+    own: u8, // 0 view (fold: ArrayView, iter_fold/cv: ArrayViewMut), 1 owned Array, 2 ArcArray
+    lr: char,
+    lt: char,
+    er: &'static str,
+    et: &'static str,
+}
+impl Cfg {
+    fn base(n: usize, k: usize, p: usize, t: usize, dim: usize, own: u8) -> Cfg {
+        Cfg { n, k, p, t: if dim == 1 { 1 } else { t }, dim, own, lr: 'C', lt: 'C', er: "f64", et: "f64" }
+    }
+    fn line(&self) -> String {
+        format!("n={} k={} p={} t={} dim={} own={} lr={} lt={} er={} et={}", self.n, self.k, self.p, self.t, self.dim, self.own, self.lr, self.lt, self.er, self.et)
+    }
+    fn random(rng: &mut Rng, n: usize, k: usize, counted: bool) -> Cfg {
+        let dim = 1 + rng.below(2);
+        let lays = ['C', 'C', 'F', 'S', 'R'];
+        Cfg {
+            n,
+            k,
+            p: 1 + rng.below(4),
+            t: if dim == 1 { 1 } else { 1 + rng.below(3) },
+            dim,
+            own: rng.below(3) as u8,
+            lr: *rng.pick(&lays),
+            lt: *rng.pick(&lays),
+            er: if rng.chance(1, 3) { "f32" } else { "f64" },
+            et: if counted { "usize" } else { *rng.pick(&["f64", "f64", "f32", "usize"]) },
+        }
     }
 }
 
-fn op_fold(em: &mut Em, n: usize, k: usize, p: usize, t: usize, dim: usize, own: bool) {
-    let op = format!("fold n={} k={} p={} t={} dim={} own={}", n, k, p, t, dim, own as u8);
-    let class = format!("fold:targets={}", if dim == 2 && t > 1 { "multi" } else { "single" });
-    let body = |ctx: &mut Ctx| {
-        let r = recs(n, p);
-        type Pairs = Vec<(Vec<Vec<u64>>, Vec<Vec<u64>>, Vec<Vec<u64>>, Vec<Vec<u64>>)>;
-        let pairs: Pairs = if dim == 1 {
-            let tg = tgts1(n);
-            let f = if own {
-                Dataset::new(r.clone(), tg.clone()).fold(k)
-            } else {
-                DatasetView::new(r.view(), tg.view()).fold(k)
-            };
-            f.iter().map(|(tr, va)| (rows2(&tr.records().view()), rows1(&tr.targets().view()), rows2(&va.records().view()), rows1(&va.targets().view()))).collect()
-        } else {
-            let tg = tgts2(n, t);
-            let f = if own {
-                Dataset::new(r.clone(), tg.clone()).fold(k)
-            } else {
-                DatasetView::new(r.view(), tg.view()).fold(k)
-            };
-            f.iter().map(|(tr, va)| (rows2(&tr.records().view()), rows2(&tr.targets().view()), rows2(&va.records().view()), rows2(&va.targets().view()))).collect()
-        };
-        ctx.require(pairs.len() == k, "fold_count", "fold", || format!("{} pairs for k={}", pairs.len(), k));
-        if k >= 2 && k <= n {
-            for (i, (a, b, c, d)) in pairs.iter().enumerate() {
-                oracle_pair(ctx, "fold", n, k, p, t, i, a, b, c, d, true);
-            }
-        }
-        let parts: Vec<String> = pairs.iter().map(|(a, b, c, d)| format!("TR:{}/TT:{}/VR:{}/VT:{}", show_rows(a), show_rows(b), show_rows(c), show_rows(d))).collect();
-        format!("ok {}", parts.join(" "))
+// ---------------------------------------------------------------- fold
+
+fn fold_run<A: El, B: El, I: TD>(c: &Cfg) -> Vec<Pair> {
+    let r = recs_l::<A>(c.n, c.p, c.lr);
+    let tg = tgts_l::<B, I>(c.n, c.t, c.lt);
+    let f = match c.own {
+        1 => DatasetBase::new(r, tg).fold(c.k),
+        2 => DatasetBase::new(r.into_shared(), tg.into_shared()).fold(c.k),
+        _ => DatasetBase::new(r.view(), tg.view()).fold(c.k),
     };
-    if k >= 2 && k <= n {
-        em.case_valid(op, &class, body)
-    } else {
-        em.case(op, body)
+    f.iter().map(|(tr, va)| (rows2(&tr.records().view()), I::rows(&tr.targets().view()), rows2(&va.records().view()), I::rows(&va.targets().view()))).collect()
+}
+fn fold_dispatch(c: &Cfg) -> Vec<Pair> {
+    macro_rules! go {
+        ($a:ty, $b:ty) => {
+            if c.dim == 1 {
+                fold_run::<$a, $b, Ix1>(c)
+            } else {
+                fold_run::<$a, $b, Ix2>(c)
+            }
+        };
+    }
+    match (c.er, c.et) {
+        ("f64", "f64") => go!(f64, f64),
+        ("f64", "f32") => go!(f64, f32),
+        ("f64", "usize") => go!(f64, usize),
+        ("f32", "f64") => go!(f32, f64),
+        ("f32", "f32") => go!(f32, f32),
+        ("f32", "usize") => go!(f32, usize),
+        _ => unreachable!(),
     }
 }
 
-fn op_iter_fold(em: &mut Em, n: usize, k: usize, p: usize, t: usize, dim: usize) {
-    let op = format!("iter_fold n={} k={} p={} t={} dim={}", n, k, p, t, dim);
-    let body = |ctx: &mut Ctx| {
-        let r = recs(n, p);
-        let flat = |v: &Vec<Vec<u64>>| -> Vec<u64> { v.iter().flatten().copied().collect() };
-        let trains: RefCell<Vec<(Vec<Vec<u64>>, Vec<Vec<u64>>)>> = RefCell::new(vec![]);
-        let (valids, fin_r, fin_t): (Vec<(Vec<Vec<u64>>, Vec<Vec<u64>>)>, Vec<u64>, Vec<u64>) = if dim == 1 {
-            let mut ds = Dataset::new(r.clone(), tgts1(n));
-            let v: Vec<_> = ds
-                .iter_fold(k, |tr: &DatasetView<f64, f64, Ix1>| {
-                    trains.borrow_mut().push((rows2(&tr.records().view()), rows1(&tr.targets().view())));
-                })
-                .map(|(_, va)| (rows2(&va.records().view()), rows1(&va.targets().view())))
-                .collect();
-            (v, ds.records().iter().map(|x| *x as u64).collect(), ds.targets().iter().map(|x| *x as u64).collect())
-        } else {
-            let mut ds = Dataset::new(r.clone(), tgts2(n, t));
-            let v: Vec<_> = ds
-                .iter_fold(k, |tr: &DatasetView<f64, f64, Ix2>| {
-                    trains.borrow_mut().push((rows2(&tr.records().view()), rows2(&tr.targets().view())));
-                })
-                .map(|(_, va)| (rows2(&va.records().view()), rows2(&va.targets().view())))
-                .collect();
-            (v, ds.records().iter().map(|x| *x as u64).collect(), ds.targets().iter().map(|x| *x as u64).collect())
-        };
-        let trains = trains.into_inner();
-        // oracle
-        ctx.require(trains.len() == k && valids.len() == k, "fold_count", "iter_fold", || format!("{} closures / {} validation views for k={}", trains.len(), valids.len(), k));
-        for i in 0..k.min(trains.len()).min(valids.len()) {
-            oracle_pair(ctx, "iter_fold", n, k, p, t, i, &trains[i].0, &trains[i].1, &valids[i].0, &valids[i].1, false);
+fn op_fold(em: &mut Em, c: Cfg) {
+    let op = format!("fold {}", c.line());
+    let (n, k, p, t) = (c.n, c.k, c.p, c.t);
+    if !guard(n, k) {
+        // outside the property's guard: exercised, not compared (the statement promises nothing here)
+        let mut outcome = "";
+        em.case(op, |_ctx| {
+            outcome = if catch_unwind(AssertUnwindSafe(|| fold_dispatch(&c))).is_ok() { "unguarded:fold:returned" } else { "unguarded:fold:panic" };
+            "unguarded".to_string()
+        });
+        em.count(outcome);
+        return;
+    }
+    let class = format!("fold:targets={}", if c.dim == 2 && t > 1 { "multi" } else { "single" });
+    let mut ok = false;
+    em.case_valid(op, &class, |ctx| {
+        let pairs = fold_dispatch(&c);
+        ctx.require(pairs.len() == k, "fold_count", "fold", || format!("{} pairs for k={}", pairs.len(), k));
+        let exp_t = |id: usize| -> Vec<u64> { (0..t).map(|cc| (TBASE + id * t + cc) as u64).collect() };
+        for (i, (a, b, cc, d)) in pairs.iter().enumerate() {
+            oracle_pair(ctx, "fold", n, k, p, i, (a, b, cc, d), &exp_t);
         }
-        let want_r: Vec<u64> = (0..(n * p) as u64).collect();
-        let want_t: Vec<u64> = (0..(n * t) as u64).map(|x| 100000 + x).collect();
-        ctx.require(fin_r == want_r && fin_t == want_t, "restored", &format!("iter_fold:n_mod_k={}", if n % k == 0 { "0" } else { "nonzero" }), || format!("buffers after iter_fold: {:?} / {:?}", fin_r, fin_t));
-        let sh = |x: &(Vec<Vec<u64>>, Vec<Vec<u64>>)| format!("{}/{}", list(flat(&x.0), |v| v.to_string()), list(flat(&x.1), |v| v.to_string()));
+        ok = true;
+        let parts: Vec<String> = pairs
+            .iter()
+            .map(|(a, b, cc, d)| {
+                let (a, b) = sort_paired(a, b);
+                format!("TR:{}/TT:{}/VR:{}/VT:{}", show_rows(&a), show_rows(&b), show_rows(cc), show_rows(d))
+            })
+            .collect();
+        format!("ok {}", parts.join(" "))
+    });
+    if ok {
+        em.count(&format!("ok:fold:lr={}", c.lr));
+        em.count(&format!("ok:fold:lt={}", c.lt));
+        em.count(&format!("ok:fold:own={}", c.own));
+        em.count(&format!("ok:fold:er={}", c.er));
+        em.count(&format!("ok:fold:et={}", c.et));
+        em.count(&format!("ok:fold:dim={}", c.dim));
+        em.count(if n % k == 0 { "ok:fold:n_mod_k=0" } else { "ok:fold:n_mod_k=nonzero" });
+    }
+}
+
+// ---------------------------------------------------------------- fold on CountedTargets
+
+const NLAB: usize = 4;
+fn label_of(id: usize, c: usize) -> usize {
+    (id * id + 3 * c + id / 3) % NLAB
+}
+type CPair = (Rows, Rows, Vec<Vec<u64>>, Rows, Rows, Vec<Vec<u64>>);
+
+fn counts_of<I: TD, T: Labels<Elem = usize>>(ctx: &mut Ctx, what: &str, t: usize, tg: &T) -> Vec<Vec<u64>> {
+    let lc = tg.label_count();
+    ctx.require(lc.len() == t, "label_recount", "fold_counted", || format!("{}: {} label maps for {} target columns", what, lc.len(), t));
+    lc.iter()
+        .map(|m| {
+            ctx.require(m.iter().all(|(l, c)| *l < NLAB && *c > 0), "label_recount", "fold_counted", || format!("{}: label map {:?} has a foreign label or a zero count", what, m));
+            (0..NLAB).map(|l| *m.get(&l).unwrap_or(&0) as u64).collect()
+        })
+        .collect()
+}
+fn fold_counted_run<I: TD>(ctx: &mut Ctx, c: &Cfg) -> Vec<CPair> {
+    macro_rules! body {
+        ($a:ty) => {{
+            let r = recs_l::<$a>(c.n, c.p, c.lr);
+            let tg: Array<usize, I> = I::build_with(c.n, c.t, c.lt, |i, cc| label_of(i, cc));
+            let f = match c.own {
+                0 => DatasetBase::new(r.view(), CountedTargets::new(tg.view())).fold(c.k),
+                _ => DatasetBase::new(r, CountedTargets::new(tg)).fold(c.k),
+            };
+            f.iter()
+                .enumerate()
+                .map(|(i, (tr, va))| {
+                    let ct = counts_of::<I, _>(ctx, &format!("train {}", i), c.t, tr.targets());
+                    let cv = counts_of::<I, _>(ctx, &format!("valid {}", i), c.t, va.targets());
+                    (rows2(&tr.records().view()), I::rows(&tr.targets().as_targets()), ct, rows2(&va.records().view()), I::rows(&va.targets().as_targets()), cv)
+                })
+                .collect()
+        }};
+    }
+    if c.er == "f32" {
+        body!(f32)
+    } else {
+        body!(f64)
+    }
+}
+
+fn op_fold_counted(em: &mut Em, c: Cfg) {
+    let op = format!("fold_counted {}", c.line());
+    let (n, k, p, t) = (c.n, c.k, c.p, c.t);
+    let mut ok = false;
+    em.case_valid(op, "fold_counted", |ctx| {
+        let pairs = if c.dim == 1 { fold_counted_run::<Ix1>(ctx, &c) } else { fold_counted_run::<Ix2>(ctx, &c) };
+        ctx.require(pairs.len() == k, "fold_count", "fold_counted", || format!("{} pairs for k={}", pairs.len(), k));
+        let exp_t = |id: usize| -> Vec<u64> { (0..t).map(|cc| label_of(id, cc) as u64).collect() };
+        let recount = |rr: &Rows| -> Vec<Vec<u64>> {
+            (0..t).map(|cc| (0..NLAB).map(|l| rr.iter().filter(|row| p > 0 && !row.is_empty() && label_of(row[0] as usize / p, cc) == l).count() as u64).collect()).collect()
+        };
+        for (i, (a, b, ct, cc, d, cv)) in pairs.iter().enumerate() {
+            oracle_pair(ctx, "fold_counted", n, k, p, i, (a, b, cc, d), &exp_t);
+            // the counts carried by each part are the counts OF that part
+            ctx.require(*ct == recount(a), "label_recount", "fold_counted", || format!("fold {}: training label counts {:?}, recount {:?}", i, ct, recount(a)));
+            ctx.require(*cv == recount(cc), "label_recount", "fold_counted", || format!("fold {}: validation label counts {:?}, recount {:?}", i, cv, recount(cc)));
+        }
+        ok = true;
+        let parts: Vec<String> = pairs
+            .iter()
+            .map(|(a, b, ct, cc, d, cv)| {
+                let (a, b) = sort_paired(a, b);
+                format!("TR:{}/TT:{}/CT:{}/VR:{}/VT:{}/CV:{}", show_rows(&a), show_rows(&b), show_rows(ct), show_rows(cc), show_rows(d), show_rows(cv))
+            })
+            .collect();
+        format!("ok {}", parts.join(" "))
+    });
+    if ok {
+        em.count("ok:fold_counted");
+        em.count(&format!("ok:fold_counted:dim={}", c.dim));
+    }
+}
+
+// ---------------------------------------------------------------- iter_fold
+
+struct IterOut {
+    trains: Vec<(Rows, Rows)>,
+    valids: Vec<(Rows, Rows)>,
+    fin_r: Rows,
+    fin_t: Rows,
+}
+
+fn iter_fold_run<A: El, B: El, I: TD>(c: &Cfg) -> IterOut {
+    let mut r = recs_l::<A>(c.n, c.p, c.lr);
+    let mut tg = tgts_l::<B, I>(c.n, c.t, c.lt);
+    let trains: RefCell<Vec<(Rows, Rows)>> = RefCell::new(vec![]);
+    let clo = |tr: &DatasetView<A, B, I>| {
+        trains.borrow_mut().push((rows2(&tr.records().view()), I::rows(&tr.targets().view())));
+    };
+    let (valids, fin_r, fin_t) = match c.own {
+        1 => {
+            let mut ds = DatasetBase::new(r, tg);
+            let v: Vec<(Rows, Rows)> = ds.iter_fold(c.k, clo).map(|(_, va)| (rows2(&va.records().view()), I::rows(&va.targets().view()))).collect();
+            (v, rows2(&ds.records().view()), I::rows(&ds.targets().view()))
+        }
+        2 => {
+            // shared storage with a second handle alive: the in-place swaps must not leak into it either
+            let (rs, ts) = (r.into_shared(), tg.into_shared());
+            let (r2, t2) = (rs.clone(), ts.clone());
+            let mut ds = DatasetBase::new(rs, ts);
+            let v: Vec<(Rows, Rows)> = ds.iter_fold(c.k, clo).map(|(_, va)| (rows2(&va.records().view()), I::rows(&va.targets().view()))).collect();
+            let _ = (r2.len(), t2.len());
+            (v, rows2(&ds.records().view()), I::rows(&ds.targets().view()))
+        }
+        _ => {
+            let v: Vec<(Rows, Rows)> = {
+                let mut ds = DatasetBase::new(r.view_mut(), tg.view_mut());
+                let v = ds.iter_fold(c.k, clo).map(|(_, va)| (rows2(&va.records().view()), I::rows(&va.targets().view()))).collect();
+                v
+            };
+            (v, rows2(&r.view()), I::rows(&tg.view()))
+        }
+    };
+    IterOut { trains: trains.into_inner(), valids, fin_r, fin_t }
+}
+fn iter_fold_dispatch(c: &Cfg) -> IterOut {
+    macro_rules! go {
+        ($a:ty, $b:ty) => {
+            if c.dim == 1 {
+                iter_fold_run::<$a, $b, Ix1>(c)
+            } else {
+                iter_fold_run::<$a, $b, Ix2>(c)
+            }
+        };
+    }
+    match (c.er, c.et) {
+        ("f64", "f64") => go!(f64, f64),
+        ("f64", "f32") => go!(f64, f32),
+        ("f64", "usize") => go!(f64, usize),
+        ("f32", "f64") => go!(f32, f64),
+        ("f32", "f32") => go!(f32, f32),
+        ("f32", "usize") => go!(f32, usize),
+        _ => unreachable!(),
+    }
+}
+/// is the array of this shape and layout "contiguous and in standard order" (what `iter_fold` documents)?
+fn is_std(c: &Cfg) -> (bool, bool) {
+    let r = recs_l::<f64>(c.n, c.p, c.lr).is_standard_layout();
+    let t = if c.dim == 1 { tgts_l::<f64, Ix1>(c.n, c.t, c.lt).is_standard_layout() } else { tgts_l::<f64, Ix2>(c.n, c.t, c.lt).is_standard_layout() };
+    (r, t)
+}
+
+fn iter_fold_oracle(ctx: &mut Ctx, c: &Cfg, o: &IterOut) {
+    let (n, k, p, t) = (c.n, c.k, c.p, c.t);
+    ctx.require(o.trains.len() == k && o.valids.len() == k, "fold_count", "iter_fold", || format!("{} closures / {} validation views for k={}", o.trains.len(), o.valids.len(), k));
+    let exp_t = |id: usize| -> Vec<u64> { (0..t).map(|cc| (TBASE + id * t + cc) as u64).collect() };
+    for i in 0..k.min(o.trains.len()).min(o.valids.len()) {
+        oracle_pair(ctx, "iter_fold", n, k, p, i, (&o.trains[i].0, &o.trains[i].1, &o.valids[i].0, &o.valids[i].1), &exp_t);
+    }
+    let want_r: Vec<u64> = (0..(n * p) as u64).collect();
+    let want_t: Vec<u64> = (0..(n * t) as u64).map(|x| TBASE as u64 + x).collect();
+    ctx.require(flat(&o.fin_r) == want_r && flat(&o.fin_t) == want_t, "restored", &nk_class("iter_fold", n, k), || format!("buffers after iter_fold: {:?} / {:?}", o.fin_r, o.fin_t));
+}
+
+fn op_iter_fold(em: &mut Em, c: Cfg) {
+    let (n, k) = (c.n, c.k);
+    let (sr, st) = is_std(&c);
+    if !guard(n, k) {
+        let mut outcome = "";
+        em.case(format!("iter_fold {}", c.line()), |_ctx| {
+            outcome = if catch_unwind(AssertUnwindSafe(|| iter_fold_dispatch(&c))).is_ok() { "unguarded:iter_fold:returned" } else { "unguarded:iter_fold:panic" };
+            "unguarded".to_string()
+        });
+        em.count(outcome);
+        return;
+    }
+    if !(sr && st) {
+        // documented: panics unless contiguous and in standard order.  The statement is about the
+        // calls that return: either the documented panic, or everything must hold.  Oracle only.
+        let mut outcome = "";
+        em.case_valid(format!("#iter_fold_nonstd {}", c.line()), "iter_fold_nonstd", |ctx| {
+            match catch_unwind(AssertUnwindSafe(|| iter_fold_dispatch(&c))) {
+                Err(_) => outcome = "nonstd:iter_fold:documented_panic",
+                Ok(o) => {
+                    outcome = "nonstd:iter_fold:returned";
+                    iter_fold_oracle(ctx, &c, &o);
+                }
+            }
+            "-".to_string()
+        });
+        em.count(outcome);
+        return;
+    }
+    let mut ok = false;
+    em.case_valid(format!("iter_fold {}", c.line()), "iter_fold", |ctx| {
+        let o = iter_fold_dispatch(&c);
+        iter_fold_oracle(ctx, &c, &o);
+        ok = true;
+        let sh = |x: &(Rows, Rows)| format!("{}/{}", list(flat(&x.0), |v| v.to_string()), list(flat(&x.1), |v| v.to_string()));
+        let sh_sorted = |x: &(Rows, Rows)| sh(&sort_paired(&x.0, &x.1));
         format!(
             "ok trains={} valids={} final={}/{}",
-            trains.iter().map(sh).collect::<Vec<_>>().join(" "),
-            valids.iter().map(sh).collect::<Vec<_>>().join(" "),
-            list(fin_r, |v| v.to_string()),
-            list(fin_t, |v| v.to_string())
+            o.trains.iter().map(sh_sorted).collect::<Vec<_>>().join(" "),
+            o.valids.iter().map(sh).collect::<Vec<_>>().join(" "),
+            list(flat(&o.fin_r), |v| v.to_string()),
+            list(flat(&o.fin_t), |v| v.to_string())
         )
-    };
-    if k >= 2 && k <= n {
-        em.case_valid(op, "iter_fold", body)
-    } else {
-        em.case(op, body)
+    });
+    if ok {
+        em.count(&format!("ok:iter_fold:own={}", c.own));
+        em.count(&format!("ok:iter_fold:er={}", c.er));
+        em.count(&format!("ok:iter_fold:et={}", c.et));
+        em.count(&format!("ok:iter_fold:dim={}", c.dim));
+        em.count(if n % k == 0 { "ok:iter_fold:n_mod_k=0" } else { "ok:iter_fold:n_mod_k=nonzero" });
     }
 }
 
@@ -165,6 +527,37 @@ enum MockError {
     Linfa(#[from] linfa::error::Error),
 }
 
+/// the evaluation closure fails with different `linfa::Error` variants, selected by the code
+fn eval_error(c: u32) -> linfa::error::Error {
+    use linfa::error::Error as E;
+    match c % 5 {
+        0 => E::Parameters(format!("eval:{}", c)),
+        1 => E::Priors(format!("eval:{}", c)),
+        2 => E::NotConverged(format!("eval:{}", c)),
+        3 => E::MismatchedShapes(c as usize, 7),
+        _ => E::NotEnoughSamples,
+    }
+}
+/// canonical name of an error that came out of cross_validate: `fit:c` / `eval:c` when it is the
+/// very error value a scripted cell produced (variant and payload intact), else a description
+fn canon_err(e: &MockError, scripted_eval: &[u32]) -> String {
+    use linfa::error::Error as E;
+    match e {
+        MockError::Fit(c) => format!("fit:{}", c),
+        MockError::Linfa(E::Parameters(s)) if s.strip_prefix("eval:").and_then(|x| x.parse::<u32>().ok()).map_or(false, |c| c % 5 == 0) => s.clone(),
+        MockError::Linfa(E::Priors(s)) if s.strip_prefix("eval:").and_then(|x| x.parse::<u32>().ok()).map_or(false, |c| c % 5 == 1) => s.clone(),
+        MockError::Linfa(E::NotConverged(s)) if s.strip_prefix("eval:").and_then(|x| x.parse::<u32>().ok()).map_or(false, |c| c % 5 == 2) => s.clone(),
+        MockError::Linfa(E::MismatchedShapes(a, 7)) if a % 5 == 3 => format!("eval:{}", a),
+        // NotEnoughSamples carries no payload: it names the first scripted cell that uses it (when two
+        // cells use it, several cells fail and the response is `one-of-scripted` anyway)
+        MockError::Linfa(E::NotEnoughSamples) => match scripted_eval.iter().find(|c| **c % 5 == 4) {
+            Some(c) => format!("eval:{}", c),
+            None => "eval:NotEnoughSamples".to_string(),
+        },
+        other => format!("foreign-error:{}", other),
+    }
+}
+
 struct Script {
     n: usize,
     k: usize,
@@ -174,22 +567,30 @@ struct Script {
     ev: Vec<Vec<u32>>,
     vals: Vec<Vec<Vec<i64>>>,
     notes: RefCell<Vec<(String, String)>>,
+    fits_seen: RefCell<Vec<(usize, usize)>>,
+    evals_seen: RefCell<Vec<(usize, usize)>>,
 }
 impl Script {
     fn fs(&self) -> usize {
         self.n / self.k
     }
+    fn note(&self, clause: &str, detail: String) {
+        self.notes.borrow_mut().push((clause.into(), detail));
+    }
     /// fold index from the ids present in a training view (smallest missing id / fold size)
     fn fold_of_train(&self, r: &ArrayView2<f64>) -> usize {
         let mut present = vec![false; self.n];
         for row in r.rows() {
+            if row.is_empty() {
+                continue;
+            }
             let id = (row[0] as usize) / self.p;
             if id < self.n {
                 present[id] = true;
             }
         }
         let missing = present.iter().position(|x| !*x).unwrap_or(0);
-        missing / self.fs()
+        (missing / self.fs()).min(self.k - 1)
     }
 }
 struct MockParams<'s> {
@@ -208,44 +609,45 @@ fn check_train(s: &Script, fold: usize, rec: &ArrayView2<f64>, tg: Vec<Vec<u64>>
     let mut seen = vec![0usize; s.n];
     let rr = rows2(rec);
     if rr.len() != tg.len() {
-        s.notes.borrow_mut().push(("pairing".into(), format!("cv train fold {}: {} vs {}", fold, rr.len(), tg.len())));
+        s.note("pairing", format!("cv train fold {}: {} vs {}", fold, rr.len(), tg.len()));
     }
     for (a, b) in rr.iter().zip(tg.iter()) {
         let id = a[0] as usize / s.p;
-        let ok_r = a.iter().enumerate().all(|(j, v)| *v as usize == id * s.p + j);
-        let ok_t = b.iter().enumerate().all(|(c, v)| *v as usize == 100000 + id * s.t + c);
+        let ok_r = a.len() == s.p && a.iter().enumerate().all(|(j, v)| *v as usize == id * s.p + j);
+        let ok_t = b.len() == s.t && b.iter().enumerate().all(|(c, v)| *v as usize == TBASE + id * s.t + c);
         if !(ok_r && ok_t && id < s.n) {
-            s.notes.borrow_mut().push(("pairing".into(), format!("cv train fold {}: {:?} with {:?}", fold, a, b)));
+            s.note("pairing", format!("cv train fold {}: {:?} with {:?}", fold, a, b));
         } else {
             seen[id] += 1;
         }
     }
     let ok = (0..s.n).all(|id| seen[id] == if id / fs == fold && id < s.k * fs { 0 } else { 1 });
     if !ok {
-        s.notes.borrow_mut().push(("partition".into(), format!("cv train fold {}: multiplicities {:?}", fold, seen)));
+        s.note("partition", format!("cv train fold {}: multiplicities {:?}", fold, seen));
     }
 }
 
-impl<'a, 's> Fit<ArrayView2<'a, f64>, ArrayView2<'a, f64>, MockError> for MockParams<'s> {
-    type Object = MockModel<'s>;
-    fn fit(&self, d: &DatasetView<f64, f64, Ix2>) -> Result<Self::Object, MockError> {
-        let fold = self.s.fold_of_train(&d.records().view());
-        check_train(self.s, fold, &d.records().view(), rows2(&d.targets().view()));
+impl<'s> MockParams<'s> {
+    fn fit_common(&self, rec: &ArrayView2<f64>, tg: Vec<Vec<u64>>) -> Result<MockModel<'s>, MockError> {
+        let fold = self.s.fold_of_train(rec);
+        check_train(self.s, fold, rec, tg);
+        self.s.fits_seen.borrow_mut().push((fold, self.m));
         match self.s.fit[fold][self.m] {
             0 => Ok(MockModel { s: self.s, m: self.m, fold }),
             c => Err(MockError::Fit(c)),
         }
+    }
+}
+impl<'a, 's> Fit<ArrayView2<'a, f64>, ArrayView2<'a, f64>, MockError> for MockParams<'s> {
+    type Object = MockModel<'s>;
+    fn fit(&self, d: &DatasetView<f64, f64, Ix2>) -> Result<Self::Object, MockError> {
+        self.fit_common(&d.records().view(), rows2(&d.targets().view()))
     }
 }
 impl<'a, 's> Fit<ArrayView2<'a, f64>, ArrayView1<'a, f64>, MockError> for MockParams<'s> {
     type Object = MockModel<'s>;
     fn fit(&self, d: &DatasetView<f64, f64, Ix1>) -> Result<Self::Object, MockError> {
-        let fold = self.s.fold_of_train(&d.records().view());
-        check_train(self.s, fold, &d.records().view(), rows1(&d.targets().view()));
-        match self.s.fit[fold][self.m] {
-            0 => Ok(MockModel { s: self.s, m: self.m, fold }),
-            c => Err(MockError::Fit(c)),
-        }
+        self.fit_common(&d.records().view(), Ix1::rows(&d.targets().view()))
     }
 }
 impl<'s> MockModel<'s> {
@@ -254,14 +656,21 @@ impl<'s> MockModel<'s> {
         let ids: Vec<usize> = x.rows().into_iter().map(|r| r[0] as usize / self.s.p).collect();
         let want: Vec<usize> = (self.fold * fs..(self.fold + 1) * fs).collect();
         if ids != want {
-            self.s.notes.borrow_mut().push(("valid_block".into(), format!("cv predict fold {}: ids {:?}", self.fold, ids)));
+            self.s.note("valid_block", format!("cv predict fold {}: ids {:?}", self.fold, ids));
         }
+        let cells_ok = x.rows().into_iter().all(|r| r.len() == self.s.p && r.iter().enumerate().all(|(j, v)| *v as usize == (r[0] as usize) + j));
+        if !cells_ok {
+            self.s.note("pairing", format!("cv predict fold {}: validation records are not whole rows", self.fold));
+        }
+    }
+    fn code(&self) -> f64 {
+        (self.fold * 1000 + self.m) as f64
     }
 }
 impl<'b, 's> PredictInplace<ArrayView2<'b, f64>, Array2<f64>> for MockModel<'s> {
     fn predict_inplace<'a>(&'a self, x: &'a ArrayView2<'b, f64>, y: &mut Array2<f64>) {
         self.check_valid(x);
-        y.fill((self.fold * 1000 + self.m) as f64);
+        y.fill(self.code());
     }
     fn default_target(&self, x: &ArrayView2<f64>) -> Array2<f64> {
         Array2::zeros((x.nrows(), self.s.t))
@@ -270,132 +679,279 @@ impl<'b, 's> PredictInplace<ArrayView2<'b, f64>, Array2<f64>> for MockModel<'s> 
 impl<'b, 's> PredictInplace<ArrayView2<'b, f64>, Array1<f64>> for MockModel<'s> {
     fn predict_inplace<'a>(&'a self, x: &'a ArrayView2<'b, f64>, y: &mut Array1<f64>) {
         self.check_valid(x);
-        y.fill((self.fold * 1000 + self.m) as f64);
+        y.fill(self.code());
     }
     fn default_target(&self, x: &ArrayView2<f64>) -> Array1<f64> {
         Array1::zeros(x.nrows())
     }
 }
 
-fn eval_common(s: &Script, pred0: f64, truth_first: f64, truth_ids: Vec<usize>) -> Result<Vec<f64>, linfa::error::Error> {
-    let code = pred0 as usize;
+/// what the evaluation closure is handed: the WHOLE prediction of one model on one fold (every cell
+/// the model's code, one row per validation sample) and that fold's validation targets
+fn eval_common(s: &Script, pred: Vec<f64>, pred_rows: usize, truth_rows: Vec<Vec<u64>>) -> Result<Vec<f64>, linfa::error::Error> {
+    let code = pred.first().copied().unwrap_or(-1.0);
+    if code < 0.0 || pred.iter().any(|x| *x != code) || pred_rows != truth_rows.len() || pred.len() != pred_rows * s.t {
+        s.note("eval_pairs_own_fold", format!("eval got a prediction array that is not one model's prediction on one fold: {} rows / {} cells vs {} truth rows", pred_rows, pred.len(), truth_rows.len()));
+    }
+    let code = code.max(0.0) as usize;
     let (pf, m) = (code / 1000, code % 1000);
     let fs = s.fs();
-    let fold = ((truth_first as usize - 100000) / s.t) / fs;
+    let truth_ids: Vec<usize> = truth_rows.iter().map(|r| (r[0] as usize).saturating_sub(TBASE) / s.t).collect();
+    let rows_ok = truth_rows.iter().zip(truth_ids.iter()).all(|(r, id)| r.len() == s.t && r.iter().enumerate().all(|(c, v)| *v as usize == TBASE + id * s.t + c));
+    let fold = (truth_ids.first().copied().unwrap_or(0) / fs).min(s.k - 1);
     if pf != fold {
-        s.notes.borrow_mut().push(("eval_pairs_own_fold".into(), format!("eval got predictions of fold {} with truths of fold {}", pf, fold)));
+        s.note("eval_pairs_own_fold", format!("eval got predictions of fold {} with truths of fold {}", pf, fold));
     }
     let want: Vec<usize> = (fold * fs..(fold + 1) * fs).collect();
-    if truth_ids != want {
-        s.notes.borrow_mut().push(("valid_block".into(), format!("cv eval fold {}: truth ids {:?}", fold, truth_ids)));
+    if truth_ids != want || !rows_ok {
+        s.note("valid_block", format!("cv eval fold {}: truth rows {:?}", fold, truth_rows));
     }
+    let m = m.min(s.ev[fold].len().saturating_sub(1));
+    s.evals_seen.borrow_mut().push((fold, m));
     match s.ev[fold][m] {
         0 => Ok(s.vals[fold][m].iter().map(|q| *q as f64 / 4.0).collect()),
-        c => Err(linfa::error::Error::Parameters(format!("eval:{}", c))),
+        c => Err(eval_error(c)),
     }
 }
 
-fn op_cv(em: &mut Em, n: usize, k: usize, p: usize, t: usize, m: usize, single: bool, fit: Vec<Vec<u32>>, ev: Vec<Vec<u32>>, vals: Vec<Vec<Vec<i64>>>) {
-    let op = format!(
-        "cv n={} k={} p={} t={} m={} single={} fit={} ev={} vals={}",
-        n,
-        k,
-        p,
-        t,
-        m,
-        single as u8,
+trait Acc: linfa::Float {
+    const BITS: usize;
+    fn of(x: f64) -> Self;
+    fn hex(self) -> String;
+}
+impl Acc for f64 {
+    const BITS: usize = 64;
+    fn of(x: f64) -> Self {
+        x
+    }
+    fn hex(self) -> String {
+        hex64(self)
+    }
+}
+impl Acc for f32 {
+    const BITS: usize = 32;
+    fn of(x: f64) -> Self {
+        x as f32
+    }
+    fn hex(self) -> String {
+        hex32(self)
+    }
+}
+
+struct CvCfg {
+    n: usize,
+    k: usize,
+    p: usize,
+    t: usize,
+    m: usize,
+    single: bool,
+    acc: usize,
+    own: u8,
+    lr: char,
+    lt: char,
+}
+
+type CvRes<FACC> = (Result<Vec<Vec<FACC>>, MockError>, Rows, Rows);
+
+fn cv_run<FACC: Acc>(c: &CvCfg, s: &Script) -> CvRes<FACC> {
+    let params: Vec<MockParams> = (0..c.m).map(|i| MockParams { s, m: i }).collect();
+    let t = c.t;
+    let ev1 = |pred: &Array1<f64>, truth: &ArrayView1<f64>| -> Result<FACC, linfa::error::Error> { eval_common(s, pred.to_vec(), pred.len(), Ix1::rows(truth)).map(|v| FACC::of(v[0])) };
+    let ev2 = |pred: &Array2<f64>, truth: &ArrayView2<f64>| -> Result<Array1<FACC>, linfa::error::Error> { eval_common(s, pred.iter().copied().collect(), pred.nrows(), rows2(truth)).map(|v| v.into_iter().map(FACC::of).collect()) };
+    let out1 = |a: Array1<FACC>| -> Vec<Vec<FACC>> { a.iter().map(|x| vec![*x]).collect() };
+    let out2 = |a: Array2<FACC>| -> Vec<Vec<FACC>> { a.rows().into_iter().map(|r| r.to_vec()).collect() };
+    let mut r = recs_l::<f64>(c.n, c.p, c.lr);
+    if c.single {
+        let mut tg = tgts_l::<f64, Ix1>(c.n, 1, c.lt);
+        match c.own {
+            0 => {
+                let res = {
+                    let mut ds = DatasetBase::new(r.view_mut(), tg.view_mut());
+                    let x = ds.cross_validate_single(c.k, &params, ev1).map(out1);
+                    x
+                };
+                (res, rows2(&r.view()), Ix1::rows(&tg.view()))
+            }
+            _ => {
+                let mut ds = DatasetBase::new(r, tg);
+                let res = ds.cross_validate_single(c.k, &params, ev1).map(out1);
+                (res, rows2(&ds.records().view()), Ix1::rows(&ds.targets().view()))
+            }
+        }
+    } else {
+        let mut tg = tgts_l::<f64, Ix2>(c.n, t, c.lt);
+        match c.own {
+            0 => {
+                let res = {
+                    let mut ds = DatasetBase::new(r.view_mut(), tg.view_mut());
+                    let x = ds.cross_validate(c.k, &params, ev2).map(out2);
+                    x
+                };
+                (res, rows2(&r.view()), rows2(&tg.view()))
+            }
+            _ => {
+                let mut ds = DatasetBase::new(r, tg);
+                let res = ds.cross_validate(c.k, &params, ev2).map(out2);
+                (res, rows2(&ds.records().view()), rows2(&ds.targets().view()))
+            }
+        }
+    }
+}
+
+fn cv_oracle_and_response<FACC: Acc>(ctx: &mut Ctx, c: &CvCfg, s: &Script, out: CvRes<FACC>) -> String {
+    let (res, fin_r, fin_t) = out;
+    let (n, k, p, t, m) = (c.n, c.k, c.p, c.t, c.m);
+    let class = nk_class("cv", n, k);
+    for (clause, detail) in s.notes.borrow().iter() {
+        ctx.fail(clause, &class, detail.clone());
+    }
+    let want_r: Vec<u64> = (0..(n * p) as u64).collect();
+    let want_t: Vec<u64> = (0..(n * t) as u64).map(|x| TBASE as u64 + x).collect();
+    ctx.require(flat(&fin_r) == want_r && flat(&fin_t) == want_t, "restored", &class, || format!("buffers after cross_validate: {:?} / {:?}", fin_r, fin_t));
+    // scripted failing cells
+    let mut failing: Vec<String> = vec![];
+    let mut scripted_eval: Vec<u32> = vec![];
+    for f in 0..k {
+        for mi in 0..m {
+            if s.fit[f][mi] != 0 {
+                failing.push(format!("fit:{}", s.fit[f][mi]));
+            }
+            if s.ev[f][mi] != 0 {
+                failing.push(format!("eval:{}", s.ev[f][mi]));
+                scripted_eval.push(s.ev[f][mi]);
+            }
+        }
+    }
+    match &res {
+        Ok(a) => {
+            ctx.require(failing.is_empty(), "cv_error_surfaces", &class, || format!("Ok although these cells fail: {:?}", failing));
+            if failing.is_empty() {
+                // every model fitted once per fold and evaluated once per fold
+                let mut fs_seen = s.fits_seen.borrow().clone();
+                let mut es_seen = s.evals_seen.borrow().clone();
+                fs_seen.sort();
+                es_seen.sort();
+                let all: Vec<(usize, usize)> = (0..k).flat_map(|f| (0..m).map(move |mi| (f, mi))).collect();
+                ctx.require(fs_seen == all && es_seen == all, "cv_every_cell_once", &class, || format!("fits {:?} evals {:?}", fs_seen, es_seen));
+                // the mean, in the accumulator's own arithmetic (quarter units: sums exact)
+                let mut want = vec![vec![FACC::of(0.0); t]; m];
+                for mi in 0..m {
+                    for cc in 0..t {
+                        let sum: i64 = (0..k).map(|f| s.vals[f][mi][cc]).sum();
+                        want[mi][cc] = FACC::of(sum as f64 / 4.0) / FACC::of(k as f64);
+                    }
+                }
+                ctx.require(*a == want, "cv_is_mean", &format!("{}:acc=f{}", class, FACC::BITS), || format!("scores {:?}, mean of per-fold evaluations {:?}", a, want));
+            }
+            format!("ok {}", list2(a.iter().map(|r| r.iter()), |x| x.hex()))
+        }
+        Err(e) => {
+            let name = canon_err(e, &scripted_eval);
+            ctx.require(failing.contains(&name), "cv_error_surfaces", &class, || format!("error {:?} ({}) is not the error of any failing cell {:?}", e.to_string(), name, failing));
+            if failing.len() > 1 && failing.contains(&name) {
+                // several cells fail: the statement lets any of them surface
+                "err one-of-scripted".to_string()
+            } else {
+                format!("err {}", name)
+            }
+        }
+    }
+}
+
+fn op_cv(em: &mut Em, c: CvCfg, fit: Vec<Vec<u32>>, ev: Vec<Vec<u32>>, vals: Vec<Vec<Vec<i64>>>) {
+    let line = format!(
+        "n={} k={} p={} t={} m={} single={} acc={} own={} lr={} lt={} fit={} ev={} vals={}",
+        c.n,
+        c.k,
+        c.p,
+        c.t,
+        c.m,
+        c.single as u8,
+        c.acc,
+        c.own,
+        c.lr,
+        c.lt,
         list2(fit.iter().map(|x| x.iter()), |x| x.to_string()),
         list2(ev.iter().map(|x| x.iter()), |x| x.to_string()),
         list3(vals.iter().map(|x| x.iter().map(|y| y.iter())), |x| x.to_string())
     );
-    em.case(op, |ctx| {
-        let s = Script { n, k, p, t, fit, ev, vals, notes: RefCell::new(vec![]) };
-        let params: Vec<MockParams> = (0..m).map(|i| MockParams { s: &s, m: i }).collect();
-        let (res, fin_r, fin_t): (Result<Vec<Vec<f64>>, MockError>, Vec<u64>, Vec<u64>) = if single {
-            let mut ds: DatasetBase<Array2<f64>, Array1<f64>> = Dataset::new(recs(n, p), tgts1(n));
-            let r = ds
-                .cross_validate_single(k, &params, |pred: &Array1<f64>, truth: &ArrayView1<f64>| {
-                    let ids = truth.iter().map(|x| *x as usize - 100000).collect();
-                    eval_common(&s, pred[0], truth[0], ids).map(|v| v[0])
-                })
-                .map(|a: Array1<f64>| a.iter().map(|x| vec![*x]).collect());
-            (r, ds.records().iter().map(|x| *x as u64).collect(), ds.targets().iter().map(|x| *x as u64).collect())
+    let s = Script { n: c.n, k: c.k, p: c.p, t: c.t, fit, ev, vals, notes: RefCell::new(vec![]), fits_seen: RefCell::new(vec![]), evals_seen: RefCell::new(vec![]) };
+    let sr = recs_l::<f64>(c.n, c.p, c.lr).is_standard_layout();
+    let st = if c.single { tgts_l::<f64, Ix1>(c.n, 1, c.lt).is_standard_layout() } else { tgts_l::<f64, Ix2>(c.n, c.t, c.lt).is_standard_layout() };
+    if !guard(c.n, c.k) {
+        let mut outcome = "";
+        em.case(format!("cv {}", line), |_ctx| {
+            let r = if c.acc == 32 { catch_unwind(AssertUnwindSafe(|| cv_run::<f32>(&c, &s).0.is_ok())) } else { catch_unwind(AssertUnwindSafe(|| cv_run::<f64>(&c, &s).0.is_ok())) };
+            outcome = if r.is_ok() { "unguarded:cv:returned" } else { "unguarded:cv:panic" };
+            "unguarded".to_string()
+        });
+        em.count(outcome);
+        return;
+    }
+    if !(sr && st) {
+        let mut outcome = "";
+        em.case_valid(format!("#cv_nonstd {}", line), "cv_nonstd", |ctx| {
+            let r = catch_unwind(AssertUnwindSafe(|| cv_run::<f64>(&c, &s)));
+            match r {
+                Err(_) => outcome = "nonstd:cv:documented_panic",
+                Ok(out) => {
+                    outcome = "nonstd:cv:returned";
+                    let _ = cv_oracle_and_response::<f64>(ctx, &c, &s, out);
+                }
+            }
+            "-".to_string()
+        });
+        em.count(outcome);
+        return;
+    }
+    let mut kind = String::new();
+    em.case_valid(format!("cv {}", line), "cv", |ctx| {
+        let resp = if c.acc == 32 {
+            let out = cv_run::<f32>(&c, &s);
+            cv_oracle_and_response::<f32>(ctx, &c, &s, out)
         } else {
-            let mut ds: DatasetBase<Array2<f64>, Array2<f64>> = Dataset::new(recs(n, p), tgts2(n, t));
-            let r = ds
-                .cross_validate(k, &params, |pred: &Array2<f64>, truth: &ArrayView2<f64>| {
-                    let ids = truth.index_axis(Axis(1), 0).iter().map(|x| (*x as usize - 100000) / t).collect();
-                    eval_common(&s, pred[[0, 0]], truth[[0, 0]], ids).map(Array1::from)
-                })
-                .map(|a: Array2<f64>| a.rows().into_iter().map(|r| r.to_vec()).collect());
-            (r, ds.records().iter().map(|x| *x as u64).collect(), ds.targets().iter().map(|x| *x as u64).collect())
+            let out = cv_run::<f64>(&c, &s);
+            cv_oracle_and_response::<f64>(ctx, &c, &s, out)
         };
-        let class = format!("cv:n_mod_k={}", if n % k == 0 { "0" } else { "nonzero" });
-        for (clause, detail) in s.notes.borrow().iter() {
-            ctx.fail(clause, &class, detail.clone());
-        }
-        let want_r: Vec<u64> = (0..(n * p) as u64).collect();
-        let want_t: Vec<u64> = (0..(n * t) as u64).map(|x| 100000 + x).collect();
-        ctx.require(fin_r == want_r && fin_t == want_t, "restored", &class, || format!("buffers after cross_validate: {:?} / {:?}", fin_r, fin_t));
-        // naive expectation: first failing fold (fits, then evals), else the mean
-        let mut expect: Result<Vec<Vec<f64>>, String> = Ok(vec![vec![0.0; t]; m]);
-        'outer: for f in 0..k {
-            for mi in 0..m {
-                if s.fit[f][mi] != 0 {
-                    expect = Err(format!("fit:{}", s.fit[f][mi]));
-                    break 'outer;
-                }
-            }
-            for mi in 0..m {
-                if s.ev[f][mi] != 0 {
-                    expect = Err(format!("invalid parameter eval:{}", s.ev[f][mi]));
-                    break 'outer;
-                }
-            }
-        }
-        if let Ok(acc) = expect.as_mut() {
-            for mi in 0..m {
-                for c in 0..t {
-                    // quarter units: exact
-                    let sum: i64 = (0..k).map(|f| s.vals[f][mi][c]).sum();
-                    acc[mi][c] = (sum as f64 / 4.0) / k as f64;
-                }
-            }
-        }
-        match (&res, &expect) {
-            (Ok(a), Ok(b)) => ctx.require(a == b, "cv_is_mean", &class, || format!("scores {:?}, mean of per-fold evaluations {:?}", a, b)),
-            (Err(e), Err(w)) => ctx.require(&e.to_string() == w, "cv_error_surfaces", &class, || format!("error {:?}, want {:?}", e.to_string(), w)),
-            (a, b) => ctx.fail("cv_error_surfaces", &class, format!("result {:?}, want {:?}", a.as_ref().map_err(|e| e.to_string()), b)),
-        }
-        match res {
-            Ok(a) => format!("ok {}", list2(a.iter().map(|r| r.iter()), |x| hex64(*x))),
-            Err(e) => {
-                let s = e.to_string();
-                format!("err {}", s.trim_start_matches("invalid parameter "))
-            }
-        }
+        kind = resp.split(' ').next().unwrap_or("").to_string();
+        resp
     });
+    if kind == "ok" {
+        em.count(&format!("ok:cv:acc=f{}", c.acc));
+        em.count(&format!("ok:cv:own={}", c.own));
+        em.count(&format!("ok:cv:single={}", c.single as u8));
+        em.count(&format!("ok:cv:m={}", c.m.min(3)));
+        if c.k > 255 {
+            em.count("ok:cv:k>255");
+        }
+    } else if kind == "err" {
+        em.count("errsurfaced:cv");
+    }
 }
 
-fn gen_cv(em: &mut Em, rng: &mut Rng, n: usize, k: usize) {
+fn gen_cv(em: &mut Em, rng: &mut Rng, n: usize, k: usize, nonstd: bool) {
     let p = 1 + rng.below(3);
     let single = rng.chance(1, 3);
     let t = if single { 1 } else { 1 + rng.below(3) };
-    let m = 1 + rng.below(3);
-    // mostly valid runs; a third with a scripted failure somewhere
+    // "any number of candidate models": none at all in a tenth of the runs
+    let m = if rng.chance(1, 10) { 0 } else { 1 + rng.below(3) };
+    let acc = if rng.chance(1, 3) { 32 } else { 64 };
+    let own = rng.below(2) as u8;
+    let (lr, lt) = if nonstd { (*rng.pick(&['F', 'S', 'R']), *rng.pick(&['C', 'S', 'R'])) } else { ('C', 'C') };
+    // mostly valid runs; half with a scripted failure somewhere.  Codes are unique per cell.
     let mut fit = vec![vec![0u32; m]; k];
     let mut ev = vec![vec![0u32; m]; k];
-    let mode = rng.below(6);
+    let mode = if m == 0 { 5 } else { rng.below(6) };
     if mode == 0 || mode == 2 {
         for _ in 0..1 + rng.below(2) {
             let (f, mi) = (rng.below(k), rng.below(m));
-            fit[f][mi] = 1 + rng.below(9) as u32;
+            fit[f][mi] = (1 + f * m + mi) as u32;
         }
     }
     if mode == 1 || mode == 2 {
         for _ in 0..1 + rng.below(2) {
             let (f, mi) = (rng.below(k), rng.below(m));
-            ev[f][mi] = 1 + rng.below(9) as u32;
+            ev[f][mi] = (1 + f * m + mi) as u32;
         }
     }
     em.count(match mode {
@@ -405,41 +961,69 @@ fn gen_cv(em: &mut Em, rng: &mut Rng, n: usize, k: usize) {
         _ => "cv:ok",
     });
     let vals: Vec<Vec<Vec<i64>>> = (0..k).map(|_| (0..m).map(|_| (0..t).map(|_| rng.range(-40, 40)).collect()).collect()).collect();
-    op_cv(em, n, k, p, t, m, single, fit, ev, vals);
+    op_cv(em, CvCfg { n, k, p, t, m, single, acc, own, lr, lt }, fit, ev, vals);
 }
 
 pub fn run(em: &mut Em, rng: &mut Rng) {
     let nmax = if em.thorough() { 120 } else { 40 };
-    // exhaustive in (n, k) incl. the guard's error branches k = 0, 1, n+1
+    // exhaustive in (n, k) incl. requests outside the guard (k = 0, 1, n+1)
     for n in 1..=nmax {
         for k in 0..=n + 1 {
             let p = 1 + (n + k) % 3;
             let t = 1 + (n + 2 * k) % 3;
             let dim = if (n + k) % 2 == 0 { 1 } else { 2 };
-            let t = if dim == 1 { 1 } else { t };
-            if k >= 1 {
-                // k = 0 divides by zero in fold(): covered once below
-                op_fold(em, n, k, p, t, dim, (n + k) % 4 < 2);
+            // (1) the plain configuration: row-major f64, owned / view
+            let base = Cfg::base(n, k, p, t, dim, if (n + k) % 4 < 2 { 1 } else { 0 });
+            op_fold(em, base);
+            op_iter_fold(em, Cfg { own: 1, ..base });
+            // (2) a drawn configuration: layouts, element types, storage kinds, widths
+            if guard(n, k) {
+                let c = Cfg::random(rng, n, k, false);
+                op_fold(em, c);
+                let mut ci = Cfg::random(rng, n, k, false);
+                // iter_fold promises a result on standard layout only: mostly draw that, sometimes not
+                if !rng.chance(1, 5) {
+                    ci.lr = 'C';
+                    ci.lt = 'C';
+                }
+                op_iter_fold(em, ci);
+                if (n + k) % 3 == 0 {
+                    op_fold_counted(em, Cfg::random(rng, n, k, true));
+                }
             }
-            op_iter_fold(em, n, k, p, t, dim);
             if k >= 1 && k <= n && n <= 24 {
-                gen_cv(em, rng, n, k);
+                gen_cv(em, rng, n, k, false);
+                if guard(n, k) && rng.chance(1, 8) {
+                    gen_cv(em, rng, n, k, true);
+                }
             }
         }
     }
-    op_fold(em, 5, 0, 1, 1, 1, true);
     // random larger shapes
     let extra = if em.thorough() { 400 } else { 60 };
     for _ in 0..extra {
         let n = 2 + rng.below(if em.thorough() { 3000 } else { 400 });
         let k = 2 + rng.below(n.min(64) - 1);
-        let p = 1 + rng.below(4);
-        let dim = 1 + rng.below(2);
-        let t = if dim == 1 { 1 } else { 1 + rng.below(3) };
-        op_fold(em, n, k, p, t, dim, rng.coin());
-        op_iter_fold(em, n, k, p, t, dim);
-        if n <= 200 {
-            gen_cv(em, rng, n, k);
+        let c = Cfg::random(rng, n, k, false);
+        op_fold(em, c);
+        let mut ci = Cfg::random(rng, n, k, false);
+        if !rng.chance(1, 5) {
+            ci.lr = 'C';
+            ci.lt = 'C';
         }
+        op_iter_fold(em, ci);
+        if rng.chance(1, 4) {
+            op_fold_counted(em, Cfg::random(rng, n, k, true));
+        }
+        if n <= 200 {
+            gen_cv(em, rng, n, k, false);
+        }
+    }
+    // fold counts beyond u8: the divisor of the mean is k itself
+    let big = if em.thorough() { 30 } else { 6 };
+    for _ in 0..big {
+        let n = 256 + rng.below(400);
+        let k = 256 + rng.below(n - 255);
+        gen_cv(em, rng, n, k, false);
     }
 }
